@@ -44,43 +44,38 @@ theorem C07_inc_dec (h : C07_Supported w (n + 1)) (hn : 1 < n) (sat : Bool) (ha 
     (Canon w n (Fixpnt.dec w n sat a) ∧ toNat w (Fixpnt.dec w n sat a) = FixpntSpec.dec n sat (toNat w a)) :=
   ⟨Fixpnt.inc_spec h.1 hn h.2 sat ha, Fixpnt.dec_spec h.1 hn h.2 sat ha⟩
 
-/-- unary minus as implemented: the exact negation CLAMPED — in both modes (−maxneg ↦ maxpos) -/
-theorem C07_neg (h : C07_Supported w n) (hn : 0 < n) (ha : Canon w n a) :
-    Canon w n (Fixpnt.neg w n a) ∧ toNat w (Fixpnt.neg w n a) = FixpntSpec.neg n true (toNat w a) :=
-  Fixpnt.neg_spec h.1 hn h.2 ha
+/-- unary minus: the exact negation of the raw integer, wrapped in Modulo arithmetic (−maxneg = maxneg, the ring value) and
+    clamped in Saturate arithmetic (−maxneg ↦ maxpos).  Before the repair "fix: fixpnt unary minus in Modulo arithmetic must
+    wrap maxneg to maxneg, not flip it to maxpos" the code clamped in both modes. -/
+theorem C07_neg (h : C07_Supported w n) (hn : 0 < n) (sat : Bool) (ha : Canon w n a) :
+    Canon w n (Fixpnt.neg w n sat a) ∧ toNat w (Fixpnt.neg w n sat a) = FixpntSpec.neg n sat (toNat w a) :=
+  Fixpnt.neg_spec h.1 hn h.2 sat ha
 
-/-- so negation is exact in Saturate mode, and in Modulo mode for every operand except maxneg -/
-theorem C07_neg_modulo_partial (h : C07_Supported w n) (hn : 0 < n) (ha : Canon w n a) (hne : toNat w a ≠ 2 ^ (n - 1)) :
-    toNat w (Fixpnt.neg w n a) = FixpntSpec.neg n false (toNat w a) := by
-  rw [(C07_neg h hn ha).2]
+/-- the former counterexample, now the positive statement at the same witness: Modulo negation of maxneg is maxneg
+    (fixpnt<4,2,Modulo,uint8_t>), Saturate negation of maxneg is maxpos -/
+theorem C07_neg_cfg_maxneg :
+    toNat 8 (Fixpnt.neg 8 4 false [0x8]) = FixpntSpec.neg 4 false 0x8 ∧ toNat 8 (Fixpnt.neg 8 4 false [0x8]) = 0x8 ∧
+    toNat 8 (Fixpnt.neg 8 4 true [0x8]) = FixpntSpec.neg 4 true 0x8 ∧ toNat 8 (Fixpnt.neg 8 4 true [0x8]) = 0x7 := by decide
+
+/-- negation as signed values: exact whenever −a is representable, and in Saturate mode never wrapping -/
+theorem C07_saturate_never_wraps_neg (h : C07_Supported w n) (hn : 0 < n) (ha : Canon w n a) :
+    toInt w n (Fixpnt.neg w n true a) = FixpntSpec.clamp n (-(toInt w n a)) := by
+  unfold toInt
+  rw [(C07_neg h hn true ha).2]
   unfold FixpntSpec.neg FixpntSpec.finish FixpntSpec.val
-  simp only [if_true, Bool.false_eq_true, if_false]
-  congr 1
-  have hA := ha.2.2
-  have hp : 2 ^ n = 2 ^ (n - 1) * 2 := by rw [← Nat.pow_succ]; congr 1; omega
-  have c1 : ((2 ^ n : Nat) : Int) = 2 * ((2 ^ (n - 1) : Nat) : Int) := by rw [hp]; push_cast; ring
-  have c2 : ((toNat w a : Nat) : Int) < ((2 ^ n : Nat) : Int) := by exact_mod_cast hA
-  have c3 : (0 : Int) < ((2 ^ (n - 1) : Nat) : Int) := by exact_mod_cast Nat.two_pow_pos (n - 1)
-  have hne' : ((toNat w a : Nat) : Int) ≠ ((2 ^ (n - 1) : Nat) : Int) := by exact_mod_cast hne
-  apply Fixpnt.clamp_inside'
-  · unfold FixpntSpec.maxnegZ
-    rw [toSigned_of_lt hn hA]
-    by_cases h : toNat w a < 2 ^ (n - 1)
-    · have : ((toNat w a : Nat) : Int) < ((2 ^ (n - 1) : Nat) : Int) := by exact_mod_cast h
-      rw [if_pos h]; omega
-    · have : ((2 ^ (n - 1) : Nat) : Int) ≤ ((toNat w a : Nat) : Int) := by exact_mod_cast (Nat.le_of_not_lt h)
-      rw [if_neg h]; omega
-  · unfold FixpntSpec.maxposZ
-    rw [toSigned_of_lt hn hA]
-    by_cases h : toNat w a < 2 ^ (n - 1)
-    · have : ((toNat w a : Nat) : Int) < ((2 ^ (n - 1) : Nat) : Int) := by exact_mod_cast h
-      rw [if_pos h]; omega
-    · have : ((2 ^ (n - 1) : Nat) : Int) ≤ ((toNat w a : Nat) : Int) := by exact_mod_cast (Nat.le_of_not_lt h)
-      rw [if_neg h]; omega
-
-/-- Modulo negation of maxneg: the code returns maxpos, the ring value is maxneg (fixpnt<4,2,Modulo,uint8_t>) -/
-theorem C07_neg_modulo_counterexample :
-    ¬ (toNat 8 (Fixpnt.neg 8 4 [0x8]) = FixpntSpec.neg 4 false 0x8) := by decide
+  simp only [if_true]
+  generalize -(toSigned n (toNat w a)) = z
+  apply toSigned_ofSigned_fits hn
+  · unfold FixpntSpec.clamp FixpntSpec.maxposZ FixpntSpec.maxnegZ M2
+    have : (0 : Int) < ((2 ^ (n - 1) : Nat) : Int) := by exact_mod_cast Nat.two_pow_pos (n - 1)
+    split
+    · omega
+    · split <;> omega
+  · unfold FixpntSpec.clamp FixpntSpec.maxposZ FixpntSpec.maxnegZ M2
+    have : (0 : Int) < ((2 ^ (n - 1) : Nat) : Int) := by exact_mod_cast Nat.two_pow_pos (n - 1)
+    split
+    · omega
+    · split <;> omega
 
 /-- the comparison operators are the order of the values -/
 theorem C07_cmp (h : C07_Supported w n) (hn : 0 < n) (ha : Canon w n a) (hb : Canon w n b) :
@@ -160,22 +155,22 @@ theorem C07_saturate_never_wraps_mul {r : Nat} (h : C07_Supported w (2 * n)) (hn
     |b| ≤ 2^(nbits−1) (`div_no_tie`). -/
 theorem C07_div_modulo {r : Nat} (h : C07_Supported w (2 * n + 2 * r + 2 * n + 1)) (hn : 0 < n) (hr : r ≤ n)
     (ha : Canon w n a) (hb : Canon w n b) (hb0 : toNat w b ≠ 0) :
-    ∃ res, Fixpnt.div w n r false a b = some res ∧ Canon w n res ∧
-      toNat w res = FixpntSpec.div n r false (toNat w a) (toNat w b) :=
+    Canon w n (Fixpnt.div w n r false a b) ∧
+      toNat w (Fixpnt.div w n r false a b) = FixpntSpec.div n r false (toNat w a) (toNat w b) :=
   Fixpnt.div_spec h.1 hn hr h.2 ha hb hb0
 
 -- fixpnt<8,4,Modulo,uint8_t>: 1.0 / 3.0 = 0.333… → 5/16 (0x05); 0.1875 / 2.0 = 0.09375 is a tie → 2/16 (even)
 set_option maxRecDepth 16384 in
-example : (Fixpnt.div 8 8 4 false [0x10] [0x30]).map (toNat 8) = some 0x05 := by decide
+example : toNat 8 (Fixpnt.div 8 8 4 false [0x10] [0x30]) = 0x05 := by decide
 set_option maxRecDepth 16384 in
-example : (Fixpnt.div 8 8 4 false [0x03] [0x20]).map (toNat 8) = some 0x02 := by decide
+example : toNat 8 (Fixpnt.div 8 8 4 false [0x03] [0x20]) = 0x02 := by decide
 set_option maxRecDepth 16384 in
-example : (Fixpnt.div 8 8 4 false [0xf0] [0x30]).map (toNat 8) = some 0xfb := by decide   -- −1.0 / 3.0 → −5/16
+example : toNat 8 (Fixpnt.div 8 8 4 false [0xf0] [0x30]) = 0xfb := by decide   -- −1.0 / 3.0 → −5/16
 
 /-- D11: Saturate division is a stub that returns the left operand: 0.25 / 0.5 in fixpnt<4,2,Saturate,uint8_t>
     (raw 1 / raw 2) returns raw 1 = 0.25; the exact quotient 0.5 is raw 2 -/
 theorem C07_div_saturate_counterexample :
-    Fixpnt.div 8 4 2 true [0x1] [0x2] = some [0x1] ∧ ¬ (Fixpnt.div 8 4 2 true [0x1] [0x2] = some [0x2]) := by decide
+    Fixpnt.div 8 4 2 true [0x1] [0x2] = [0x1] ∧ ¬ (Fixpnt.div 8 4 2 true [0x1] [0x2] = [0x2]) := by decide
 
 /-! ### further non-vacuity examples: the hypotheses of the theorems above are satisfiable on non-trivial instances -/
 
